@@ -4,13 +4,15 @@
 CONSTANTS
   Nodes = @@NODES@@
   Tunnels = @@TUNNELS@@
-  TTL = 1
+  TTL = @@TTL@@
   MaxReg = @@MAXREG@@
   MaxClock = @@MAXCLOCK@@
   MaxHist = @@MAXHIST@@
   Shapes = {"jsonString"}
   Mode = "@@MODE@@"
   LifecycleFirst = @@LF@@
+  SkipLocalTarget = FALSE
+  EvictingLookup = FALSE
   Emit = TRUE
   Only = "@@ONLY@@"
 INIT Init
